@@ -21,7 +21,7 @@ pub struct ModelV<'a> {
 
 pub fn expectation<K: Fam>(cx: &StepCx<K>, fault_pending: bool) -> Option<Expect> {
     let signer = cx.signer()?;
-    let mcx = model::Ctx { fam: signer.fam, signer_pk: &signer.pk, fault_pending };
+    let mcx = model::Ctx { fam: signer.fam, signer_pk: &signer.pk, fault_pending, units: crate::keys::var_units(signer.fam, &signer.secret) };
     match (cx.op, &cx.h.init) {
         (None, Init::Builder { calls }) => Some(model::expect_build(&mcx, calls)),
         (None, Init::BuilderReuse { calls, first }) => {
